@@ -630,6 +630,7 @@ func runSplit(c *SCase, rng *vh.Rng) {
 	res := driver.VerifSplitWG(sim.NewSerialEngine(), c.CUs, c.Grid, c.WG)
 	c.Panic = res.Panicked
 	c.Dist, c.Launched, c.Probes = []int{}, []int{}, [][]int{}
+	c.Exhaustive, c.Accept0, c.Accept1, c.AcceptMany, c.TotalWG = false, 0, 0, 0, 0
 	if !res.Panicked {
 		c.Dist = res.Dist
 		c.Launched = res.GPUIndex
